@@ -568,6 +568,18 @@ def make_unit(iset, cube_name, cube_pred, memarch='PMSA', nregions=1, props=('C1
                     named.append(('mem', lor(unpred, sym.SymBool(mem.term == mem.init))))
                 ob = eng.oblige_all('post.abort', '%s: on a data abort no register is loaded or written back and the abort entry is architectural' % tag, named)
                 ob.props = ['C02', 'C14']
+        # ---- the load/store syndrome of the decoded instruction (LSInstructionSyndrome(), read when a stage 2 abort is reported:
+        # that path itself is outside the units) is computable for every decoded instruction: no host error, 9 bits
+        if isinstance(eo, Obj) and not events:
+            try:
+                iss = eng.call(A.ls_instruction_syndrome, [cpu])
+                ob = eng.oblige('safe.host', '%s: LSInstructionSyndrome() of the decoded instruction is a 9-bit value' % tag,
+                                land(iss >= 0, iss <= 0x1FF) if sym.is_intlike(iss) else False)
+                ob.props = ['C18']
+            except PyRaise as r_:
+                ob = eng.oblige('safe.host', '%s: LSInstructionSyndrome() raises %s' % (tag, r_.exc.cls.__name__), False,
+                                detail=str(r_.exc.attrs.get('args')))
+                ob.props = ['C18']
         return None
 
     def replay(inputs, ob):
